@@ -499,6 +499,8 @@ def moment_combine(
         else:
             mu = divide(total, n, dtype=dtype)
             inner_term = divide(totals, ns, dtype=dtype) - mu
+    # empty partial results (zero-size chunks) contribute nothing: 0 / 0 made them NaN
+    inner_term = np.where(ns == 0, 0, inner_term)
 
     xs = [
         _moment_helper(Ms, ns, inner_term, o, sum, axis, kwargs)
